@@ -140,7 +140,8 @@ inductive Mode
   | load                 -- t.Load()
   | ro                   -- t.LoadReadonly()
   | lv (v : Ver)         -- bare t.LoadVersion(v)
-  | loadlv (v : Ver)     -- store.LoadVersion(v): t.Load() then t.LoadVersion(v)
+  | loadlv (v : Ver)     -- store.LoadVersion(v): t.Load() then t.LoadVersion(v); the handle counts as
+                         -- `ensured` only when v is not newer than the version Load() verified
 
 inductive Op
   | open_ (slot : Nat) (fast : Bool) (mode : Mode) (skew : Nat)
@@ -263,7 +264,7 @@ def openHandle (rule : DB → Handle → Ensure) (db : DB) (fast : Bool) (mode :
     | (db', some h, .okN lv) =>
       if lv = v then (db', some h, .okN lv)
       else match loadVersion db' fast skew v with
-        | (some h', _) => (db', some { h' with ensured := h.ensured }, .okN lv)
+        | (some h', _) => (db', some { h' with ensured := h.ensured && decide (v ≤ lv) }, .okN lv)
         | (none, o) => (db', none, o)
     | (db', _, o) => (db', none, o)
 
